@@ -54,9 +54,9 @@ Fixpoint released (g : graph) (k : nat) : list node :=
 
 Definition freed (g : graph) : list node := released g (length (g_nodes g)).
 Definition leaked (g : graph) : list node :=
-  filter (fun n => negb (mem n (freed g))) (g_nodes g).
+  let F := freed g in filter (fun n => negb (mem n F)) (g_nodes g).
 Definition frees_all (g : graph) : bool :=
-  forallb (fun n => mem n (freed g)) (g_nodes g).
+  let F := freed g in forallb (fun n => mem n F) (g_nodes g).
 
 (* closed form of "released within k rounds" *)
 Fixpoint freed_within (g : graph) (k : nat) (n : node) : bool :=
@@ -64,6 +64,19 @@ Fixpoint freed_within (g : graph) (k : nat) (n : node) : bool :=
   | O => false
   | S k' => forallb (freed_within g k') (preds g n)
   end.
+
+(* the same fixpoint, stopping at the first round that releases nothing new (for evaluation;
+   RcGraphProofs.frees_all_fast_correct: equal to [frees_all]) *)
+Fixpoint released_until (g : graph) (fuel : nat) (F : list node) : list node :=
+  match fuel with
+  | O => F
+  | S f =>
+      let F' := release_round g F in
+      if forallb (fun n => mem n F) F' then F else released_until g f F'
+  end.
+Definition freed_fast (g : graph) : list node := released_until g (length (g_nodes g)) [].
+Definition frees_all_fast (g : graph) : bool :=
+  let F := freed_fast g in forallb (fun n => mem n F) (g_nodes g).
 
 End Graph.
 
@@ -153,10 +166,10 @@ Definition static_diverts (root : container) : list pos :=
 Definition wf_cache (root : container) (resolved : list pos) : Prop :=
   forall d c, In (d, c) (cache_edges root resolved) ->
               In d (story_nodes root) /\ In c (story_nodes root).
+(* decidable and cheap: both ends are among the enumerated positions (which are story nodes) *)
 Definition wf_cacheb (root : container) (resolved : list pos) : bool :=
-  forallb (fun e => mem pos pos_eqb (fst e) (story_nodes root) &&
-                    mem pos pos_eqb (snd e) (story_nodes root)) (cache_edges root resolved).
-
+  let ps := cont_positions root [] in
+  forallb (fun e => mem pos pos_eqb (fst e) ps && mem pos pos_eqb (snd e) ps) (cache_edges root resolved).
 
 (* ---------- the divert graph: the small graph that decides the same question ---------- *)
 Fixpoint is_prefixb (a b : pos) : bool :=
@@ -180,4 +193,4 @@ Definition divert_graph (ces : list (pos * pos)) : graph nat :=
         end) idx) idx).
 
 Definition predicts_leak (strong : bool) (root : container) (resolved : list pos) : bool :=
-  strong && negb (frees_all nat Nat.eqb (divert_graph (cache_edges root resolved))).
+  strong && negb (frees_all_fast nat Nat.eqb (divert_graph (cache_edges root resolved))).
